@@ -506,7 +506,7 @@ func genC16(g *Gen) {
 	// (4b) long shared prefixes: every first-difference bit is far above 2^15 (quick) / 2^17 (thorough), so a
 	// too-small initial value of the running minimum or a 16-bit intermediate shows; keys end on / off a chunk edge
 	{
-		plens := []int{4100}
+		plens := []int{4100, 8200} // 32800 and 65600 bits: above int16 / uint16
 		if g.Thorough {
 			plens = append(plens, 4096, 20001)
 		}
@@ -518,6 +518,10 @@ func genC16(g *Gen) {
 			cp(ks, 1, 4, 2, "long-prefix")
 			cp(ks, 2, 5, 40, "long-prefix")
 		}
+		// many counters: m above 2^8 (a narrow loop variable or length)
+		small := c16SortDedup([]string{"", "a", "a\x00", "ab\x01", "b"})
+		cp(small, 0, len(small), 300, "large-m")
+		cp(small, 1, 4, 1000, "large-m")
 	}
 	// (5) structured random key sets: FirstDiffBits on the sorted set and on a shuffled copy,
 	// CountPrefixes on all sub-ranges (small sets) or random sub-ranges x the m list
